@@ -417,6 +417,15 @@ func (r *replicatorActor) handleUpdate(ctx *ReceiveContext, msg updateCommand) {
 // handleGet reads the current value of a CRDT key.
 func (r *replicatorActor) handleGet(ctx *ReceiveContext, msg getCommand) {
 	keyID := msg.KeyID()
+
+	// a tombstoned key exposes no value: skip the coordinated read, which would
+	// otherwise merge and store again the copies of peers that have not yet
+	// received the tombstone, resurrecting the deleted key on this replica
+	if _, ok := r.tombstones[keyID]; ok {
+		ctx.Response(msg.Response(nil))
+		return
+	}
+
 	data := r.store[keyID]
 
 	coordination := msg.ReadCoordination()
